@@ -161,15 +161,26 @@ def build_rule(rng, ri, p, D):
     ops.append(node)
     doc = {"config": cfg} if cfg else {}
     doc["pattern"] = [{ri.parsed.mnemonic: ops}]
-    return real.dump_rule(doc)
+    text = real.dump_rule(doc)
+    if rng.random() < 0.15:
+        # a hand-written rule may leave a hexadecimal constant unquoted: YAML then reads a number; for one hex digit below a (0x8, -0x8)
+        # the number's decimal text is the same digit, so the rule means the same
+        text2 = re.sub(r"(?m)^(\s+constant_(?:offset|multiplier): )'(-?)0x([0-9])'$", r"\g<1>\g<2>0x\3", text)
+        if text2 != text:
+            return text2
+    return text
 
 
 def judge(ctx, ws, ri, p, D, desc, base_positive):
     att = ri.ops_att[p]
-    want = expected(D, att)
     rule = build_rule(ctx.rng, ri, p, D)
     if rule is None:
         return
+    # the expectation is computed from the rule AS WRITTEN (an unquoted 0x4 is the number 4 to YAML, a quoted '0x4' is that text)
+    import yaml as _yaml
+    written = list(_yaml.safe_load(rule)["pattern"][0].values())[0][-1]["$deref"]
+    D = {k: v for k, v in written.items() if k != "times"}
+    want = expected(D, att)
     eol = "\r\n" if ctx.rng.random() < 0.12 else "\n"       # a listing saved with CRLF line ends holds the same operand
     lp = ws.write("one.s", (ri.raw + eol).encode())
     rp = ws.write("rule.yaml", rule)
